@@ -2,3 +2,70 @@
 #[allow(unused_imports)]
 use super::*;
 include!("/verif/replay/in_crate/common.rs");
+
+fn lc_at(r: &BlockRing, id: u64) -> Option<SaitoHash> {
+    let it = &r.ring[(id % (r.genesis_period * 2)) as usize];
+    match it.lc_pos { Some(p) if p < it.block_ids.len() && it.block_ids[p] == id => Some(it.block_hashes[p]), _ => None }
+}
+
+/// twins of the BlockRing contracts: random op sequences against a model {height → chain block}
+#[test]
+fn ring_contract() {
+    let mut rng = Rng::from_env();
+    for run in 0..400 {
+        let gp = 2 + rng.below(3);
+        let mut ring = BlockRing::new(gp);
+        let mut trace: Vec<String> = vec![];
+        for _ in 0..30 {
+            let id = 1 + rng.below(gp * 2 + 2);
+            let h = [(id * 10 + rng.below(3)) as u8; 32];
+            let before: Vec<Option<SaitoHash>> = (0..=gp * 2 + 3).map(|i| lc_at(&ring, i)).collect();
+            match rng.below(4) {
+                0 => {
+                    let mut b = Block::new(); b.id = id; b.hash = h;
+                    ring.add_block(&b);
+                    trace.push(format!("add({},{})", id, h[0]));
+                    for i in 0..before.len() { if lc_at(&ring, i as u64) != before[i] { witness(format!("run {}: add_block changed the chain entry at height {}: {:?}", run, i, trace)); } }
+                }
+                1 => {
+                    ring.delete_block(id, h);
+                    trace.push(format!("delete({},{})", id, h[0]));
+                    for i in 0..before.len() {
+                        let now = lc_at(&ring, i as u64);
+                        match before[i] {
+                            Some(bh) if !(i as u64 == id && bh == h) => { if now != before[i] { witness(format!("run {}: deleting a side block changed the chain entry at height {} from {:?} to {:?}: {:?}", run, i, before[i].map(|x| x[0]), now.map(|x| x[0]), trace)); } }
+                            None => { if now.is_some() { witness(format!("run {}: delete_block created a chain entry at height {} ({:?}): {:?}", run, i, now.map(|x| x[0]), trace)); } }
+                            _ => {}
+                        }
+                    }
+                }
+                2 => {
+                    let present = ring.contains_block_hash_at_block_id(id, h);
+                    ring.on_chain_reorganization(id, h, true);
+                    trace.push(format!("wind({},{})", id, h[0]));
+                    if present && ring.get_block_hashes_at_block_id(id).contains(&h) {
+                        let slot = &ring.ring[(id % (gp * 2)) as usize];
+                        let first = slot.block_hashes.iter().position(|x| *x == h).unwrap();
+                        if slot.block_ids[first] == id {
+                            if lc_at(&ring, id) != Some(h) { witness(format!("run {}: wind did not set the chain block: {:?}", run, trace)); }
+                            if ring.get_latest_block_id() != id || ring.get_latest_block_hash() != h { witness(format!("run {}: wind did not move the tip: {:?}", run, trace)); }
+                        }
+                    }
+                }
+                _ => {
+                    let was_tip = ring.lc_pos == Some((id % (gp * 2)) as usize);
+                    let prev = lc_at(&ring, id - 1);
+                    ring.on_chain_reorganization(id, h, false);
+                    trace.push(format!("unwind({},{})", id, h[0]));
+                    if lc_at(&ring, id).is_some() { witness(format!("run {}: unwind left a chain entry: {:?}", run, trace)); }
+                    if was_tip {
+                        match prev { Some(ph) => { if ring.get_latest_block_id() != id - 1 || ring.get_latest_block_hash() != ph { witness(format!("run {}: tip did not roll back to height {}: {:?}", run, id - 1, trace)); } }
+                                     None => { if ring.get_latest_block_id() != 0 { witness(format!("run {}: tip rolled back to a non-chain block: {:?}", run, trace)); } } }
+                    }
+                }
+            }
+            for it in ring.ring.iter() { if it.block_ids.len() != it.block_hashes.len() { witness("ring item lengths differ".into()); } if let Some(p) = it.lc_pos { if p >= it.block_ids.len() { witness(format!("run {}: lc_pos out of range: {:?}", run, trace)); } } }
+            for i in 0..before.len() as u64 { if ring.get_longest_chain_block_hash_at_block_id(i) != lc_at(&ring, i) { witness("get_longest_chain_block_hash_at_block_id disagrees with the index".into()); } }
+        }
+    }
+}
